@@ -56,7 +56,7 @@ ASSUMPTIONS = [
 STEP_LIMIT = 1100
 UNCOUNTED_BUDGET_S = 60
 _UNCOUNTED = {"on": False, "timeouts": 0}
-DTYPES = ("complex128", "float32", "int32", "bool")
+DTYPES = ("complex128", "float32", "int32", "bool", "float64", "complex64", "uint8")
 
 
 class _NonTermination(BaseException):
